@@ -311,15 +311,19 @@ impl Exec for EncExec {
                 so.tags.push(format!("enc_{}{}", kind, if d.is_empty() { "_nothing" } else { "" }));
                 so
             }
-            ["zenc", m @ ("b" | "c"), n] => {
+            ["zenc", m @ ("b" | "c"), n, rest @ ..] if rest.is_empty() || *rest == ["fe"] => {
                 let Ok(n) = n.parse::<usize>() else { return StepOut::bad() };
+                let fe = !rest.is_empty();
+                if fe && n > zeros::FE_MAX {
+                    return StepOut::bad();
+                }
                 // only on a fresh encoder
                 match self.run.as_ref() {
                     Some(r) if r.ops == 0 && r.snaps.is_empty() => {}
                     _ => return StepOut::bad(),
                 }
                 let run = self.run.take().unwrap();
-                let so = zeros::zenc(run.enc, run.l, &mut self.bufs, m, n);
+                let so = zeros::zenc(run.enc, run.l, &mut self.bufs, m, n, fe);
                 self.bufs.clear();
                 so
             }
